@@ -260,12 +260,18 @@ pub fn run_case_realtime(c: &Case) -> Option<Obs> {
         let log: Arc<Mutex<(Vec<u64>, Vec<u64>)>> = Default::default();
         let n = Arc::new(AtomicUsize::new(0));
         let outcomes: Arc<Vec<bool>> = Arc::new(c.runs.iter().map(|r| r.1).collect());
+        let durs: Arc<Vec<u64>> = Arc::new(c.runs.iter().map(|r| r.0).collect());
         let (log2, n2) = (log.clone(), n.clone());
         let conn = agent::verif::connector::<MemTransport, _>(move || {
-            let (log, n, outcomes) = (log2.clone(), n2.clone(), outcomes.clone());
+            let (log, n, outcomes, durs) = (log2.clone(), n2.clone(), outcomes.clone(), durs.clone());
             Box::pin(async move {
                 let i = n.fetch_add(1, Ordering::SeqCst);
                 log.lock().unwrap().0.push(t0.elapsed().as_millis() as u64);
+                // a slow run: the router takes `d` ms to accept the connection
+                let d = durs.get(i).copied().unwrap_or(0);
+                if d > 0 {
+                    tokio::time::sleep(Duration::from_millis(d)).await;
+                }
                 if outcomes.get(i).copied().unwrap_or(false) {
                     let (t, peer) = mt::new();
                     let script = fakejunos::Script { running: fakejunos::running_with(1), ephemeral: fakejunos::empty_config(), fault: None };
@@ -339,9 +345,15 @@ fn realtime_cases(thorough: bool) -> Vec<Case> {
         sigs: sigs.to_vec(),
         horizon: h,
     };
+    let slow = |p: u64, runs: &[(u64, bool)], h: u64| Case { period_s: p, runs: runs.to_vec(), sigs: vec![], horizon: h };
     let mut v = vec![
         // success restores the normal period: runs at 0, p, 2p, …
         mk(1, &[true, true, true, true], &[], 3500),
+        // a successful run that lasts longer than the period: the next run starts one period after
+        // its END (0, 1500 + 1000, …), never back to back
+        slow(1, &[(1500, true), (0, true), (0, true)], 3750),
+        // … and one that lasts a fraction of the period: the pause is the period, not period − duration
+        slow(2, &[(500, true), (0, true)], 3750),
         // SIGHUP while waiting after a success: immediate run, then the period again
         mk(2, &[true, true, true], &[(1000, 'H')], 3500),
         // SIGTERM while waiting after a success: clean exit, no further run
